@@ -155,6 +155,8 @@ def main(argv=None):
 def run_check(prop, tier, seed, replay, no_build=False):
     t0 = time.time()
     os.chdir(VERIF)
+    import logging
+    logging.disable(logging.CRITICAL)  # the code under test logs expected failures loudly
     mod = harness_for(prop)
     props_files = list(getattr(mod, "PROPS_FILES", [f"PyatvModel/Props/{prop}.lean"]))
     props_modules = [p[:-5].replace("/", ".") for p in props_files]
@@ -165,10 +167,19 @@ def run_check(prop, tier, seed, replay, no_build=False):
     if replay:
         data = json.load(open(replay))
         ctx = Ctx(prop, tier, data.get("seed", seed), driver_rel)
-        if data.get("kind") != "failing-input" or not hasattr(mod, "replay"):
+        if data.get("kind") != "failing-input":
             print(f"replay {replay}: kind={data.get('kind')} names {data.get('broken')}; re-run ./check {prop} to re-evaluate")
             return 0
-        still = mod.replay(ctx, data["failure"])
+        if hasattr(mod, "replay"):
+            still = mod.replay(ctx, data["failure"])
+        else:
+            # default: regenerate the recorded run (same seed, same tier) and look for the same failure
+            ctx = Ctx(prop, data.get("tier", tier), data.get("seed", seed), driver_rel)
+            try:
+                mod.run(ctx)
+            except Exception:
+                traceback.print_exc()
+            still = any(f["sig"] == data["failure"]["sig"] for f in ctx.failures)
         if still:
             print(f"VIOLATION property={prop} replay={replay}")
             return 1
